@@ -12,8 +12,8 @@ import (
 
 	"github.com/drand/drand/v2/common/key"
 	"github.com/drand/drand/v2/internal/dkg"
-	"github.com/drand/drand/v2/zzverif/emit"
 	pdkg "github.com/drand/drand/v2/protobuf/dkg"
+	"github.com/drand/drand/v2/zzverif/emit"
 	"github.com/drand/kyber/share"
 	kdkg "github.com/drand/kyber/share/dkg"
 	"github.com/drand/kyber/util/random"
@@ -254,4 +254,3 @@ func (h *hist) runKyber(maxWait time.Duration) {
 		h.notes = append(h.notes, fmt.Sprintf("%d executions still running at the deadline", len(pending)))
 	}
 }
-
